@@ -344,29 +344,34 @@ int main(int argc, char** argv) {
   long long idx = 0;
   std::set<std::string> outcomes;
   std::string bounds;
-  // phase 1: all histories up to depth
-  for (int arch = 0; arch < 3; arch++) {
-    std::vector<OpDef> al = alphabet(arch, c.thorough());
-    std::vector<int> h;
-    long long count = 0;
-    std::function<void()> rec = [&]() {
-      if (c.capped) return;
-      if (c.mine(idx++)) {
-        if (c.tick(256)) return;
-        std::vector<OpDef> ops; for (int i : h) ops.push_back(al[i]);
-        if (run_program(arch, kBase, ops, &outcomes)) { if (h.size() >= 3) c.sample(std::string(arch_name(arch)) + ": " + [&] { std::string s; for (auto& o : ops) s += op_str(o) + ";"; return s; }(), 9); }
-        count++;
-      }
-      if ((int)h.size() >= depth) return;
-      for (int i = 0; i < (int)al.size(); i++) {
-        // prune histories that cannot add information: two pads in a row of the same size, section switch to the current section twice
-        if (!h.empty() && al[i].type == 3 && al[h.back()].type == 3) continue;
-        h.push_back(i); rec(); h.pop_back();
-      }
-    };
-    rec();
-    bounds += std::string(arch_name(arch)) + ": all histories to depth " + std::to_string(depth) + " over " + std::to_string(al.size()) + " ops; ";
-  }
+  // phase 1: all histories up to depth.  thorough runs it twice: the larger alphabet to depth-1 before the boundary families, and
+  // the quick alphabet to the full depth after them, so that a deadline can only cut the deepest layer short.
+  auto histories = [&](bool big_alphabet, int dp) {
+    for (int arch = 0; arch < 3; arch++) {
+      std::vector<OpDef> al = alphabet(arch, big_alphabet);
+      std::vector<int> h;
+      long long count = 0;
+      std::function<void()> rec = [&]() {
+        if (c.capped) return;
+        if (c.mine(idx++)) {
+          if (c.tick(256)) return;
+          std::vector<OpDef> ops; for (int i : h) ops.push_back(al[i]);
+          if (run_program(arch, kBase, ops, &outcomes)) { if (h.size() >= 3) c.sample(std::string(arch_name(arch)) + ": " + [&] { std::string s; for (auto& o : ops) s += op_str(o) + ";"; return s; }(), 9); }
+          count++;
+        }
+        if ((int)h.size() >= dp) return;
+        for (int i = 0; i < (int)al.size(); i++) {
+          // prune histories that cannot add information: two pads in a row of the same size, section switch to the current section twice
+          if (!h.empty() && al[i].type == 3 && al[h.back()].type == 3) continue;
+          h.push_back(i); rec(); h.pop_back();
+        }
+      };
+      rec();
+      bounds += std::string(arch_name(arch)) + ": all histories to depth " + std::to_string(dp) + " over " + std::to_string(al.size()) + " ops" + (c.capped ? " (cut short by the deadline)" : "") + "; ";
+    }
+  };
+  if (c.thorough() && c.opt("depth").empty()) histories(true, depth - 1);
+  else histories(c.thorough(), depth);
   // phase 2: boundary family of every format: [ref, pad(d), bind] (forward) and [bind, pad(d), ref] (backward), same section and across sections
   for (int arch = 0; arch < 3; arch++) {
     for (int k : kinds_of(arch)) {
@@ -393,6 +398,7 @@ int main(int argc, char** argv) {
       }
     }
   }
+  if (c.thorough() && c.opt("depth").empty()) histories(false, depth);
   for (auto& o : outcomes) c.outcomes.insert(o);
   c.n("distinct_nontrivial") = c.n("evaluations");
   c.n("states") = c.n("evaluations"); c.n("transitions") = c.n("evaluations"); c.n("traces") = c.n("evaluations");
